@@ -85,7 +85,66 @@ def event_name_is_a_c_string(ctx):
     ctx.floor("event_name_uses", 1, "uses of inotify_event::name as a drop-in tag")
 
 
+def watcher_descriptor_not_leaked_on_failure(ctx):
+    """'oomd keeps running ... deleting and re-creating the directory': while the drop-in directory is gone the main loop retries
+    prepDropInWatcher on every tick.  Each retry creates a fresh inotify instance; if setting the watch up fails after that (the
+    directory vanished again, EACCES, the user's inotify watch limit), the failure return has to give the descriptor back - otherwise
+    every failing tick leaks one descriptor and one inotify instance, and once fs.inotify.max_user_instances / RLIMIT_NOFILE is
+    reached inotify_init1 itself fails for good: a re-created directory is never watched again."""
+    P, cg = ctx.prog, ctx.cg
+    f = ctx.use(ctx.fn1("Oomd::FsDropInService::prepDropInWatcherEventLoop"))
+    inits = f.calls("inotify_init1", "inotify_init")
+    ctx.counters["inotify_instance_creations"] = len(inits)
+    ctx.floor("inotify_instance_creations", 1, "inotify_init1 in prepDropInWatcherEventLoop")
+    if not inits:
+        return
+    # where the descriptor lives: the field (or local) the result is assigned to
+    holder = None
+    for i in inits:
+        par = f.parent.get(i)
+        while par is not None and f.nodes[par]["k"] in ("cast", "paren"):
+            par = f.parent.get(par)
+        if par is not None and f.nodes[par]["k"] == "bin" and f.nodes[par].get("op") == "=":
+            holder = f.text(f.nodes[par]["l"])
+        elif par is not None and f.nodes[par]["k"] == "decl":
+            holder = f.nodes[par]["vars"][0]["name"]
+    if holder is None:
+        ctx.broken("watcher-descriptor-not-leaked-on-failure", "anchor", f.loc(), "cannot see where the inotify descriptor is kept")
+        return
+    H = re.escape(holder)
+    closes = [i for i in f.calls("close") if f.nodes[i].get("args") and f.text(f.nodes[i]["args"][0]) == holder and f.pos_of(i) is not None]
+    # a helper that closes the field (deregisterDropInWatcherFromEventLoop) releases it as well
+    for i in f.calls():
+        cu = f.nodes[i].get("cusr")
+        for u in (P.resolve(cu) if cu else []):
+            h = P.fns.get(u)
+            if h is not None and h.file.startswith("oomd/") and any(h.nodes[c].get("args") and h.text(h.nodes[c]["args"][0]) == holder for c in h.calls("close")) and f.pos_of(i) is not None:
+                closes.append(i)
+    tok = lambda k, p: ["released"] if (isinstance(k, str) and ((re.fullmatch(r"\(%s < 0\)|\(0 > %s\)|\(%s == -1\)|\(-1 == %s\)" % (H, H, H, H), k) and p is True) or
+                                                                (re.fullmatch(r"\(%s >= 0\)|\(0 <= %s\)" % (H, H), k) and p is False))) else None
+    fl = Flow(P, f, events={c: [("set", "released")] for c in closes}, cg=cg, edge_tokens=tok)
+    bad = []
+    n_fail = 0
+    for kind, node, b, parts in fl.exits():
+        if kind != "return" or node is None:
+            continue
+        t = ret_text(f, node)
+        if t == "0":
+            continue          # success: the watcher keeps the descriptor
+        n_fail += 1
+        if not all("released" in st.must for st in parts.values()):
+            bad.append(f.loc(node))
+    ctx.counters["watcher_setup_failure_returns"] = n_fail
+    ctx.floor("watcher_setup_failure_returns", 2, "failure returns of prepDropInWatcherEventLoop")
+    ctx.check(not bad, "watcher-descriptor-not-leaked-on-failure", "must_follow (acquire / release on error exits)", f.loc(),
+              "every failure return has closed the inotify descriptor it created (or never got one)",
+              "prepDropInWatcherEventLoop returns failure at %s with the inotify descriptor it has just created still open and nobody left to close it: the main "
+              "loop retries on every tick while the directory is unavailable, so each tick leaks one descriptor and one inotify instance until inotify_init1 "
+              "fails for good (EMFILE) - a re-created drop-in directory is then never watched again" % ", ".join(bad))
+
+
 def run(ctx):
+    watcher_descriptor_not_leaked_on_failure(ctx)
     from .C13 import compile_dropin_refuses_whole_unit
     compile_dropin_refuses_whole_unit(ctx)
     event_name_is_a_c_string(ctx)
